@@ -47,6 +47,7 @@ Proof.
       rewrite <- Ha. rewrite set_nth_same. destruct st; reflexivity.
   - (* constant *)
     match type of H with match ?x with EOk _ => _ | EErr => _ end = _ => destruct x as [[v c]|]; [|discriminate] end.
+    match type of H with (if ?c then _ else _) = _ => destruct c; [discriminate|] end.
     destruct (value_identical v (nth s (s_sym st) VUnknown)) eqn:E; [|discriminate].
     inversion H; subst; clear H. apply value_identical_eq in E. rewrite E.
     rewrite set_nth_same. destruct st; reflexivity.
@@ -152,6 +153,7 @@ Proof.
       * right. eauto. * eapply Hl, Hs0.
     + rewrite nth_set_nth_other by exact Hne. eapply Hl, Hs0.
   - match type of H with match ?x with EOk _ => _ | EErr => _ end = _ => destruct x as [[v c]|]; [|discriminate] end.
+    match type of H with (if ?c then _ else _) = _ => destruct c; [discriminate|] end.
     inversion H; subst; clear H. intros s0 d1 c0 Hs0. cbn [s_sym].
     assert (s0 <> s) by (intro; subst; eapply Hd; eauto).
     rewrite nth_set_nth_other by assumption. eapply Hl, Hs0.
